@@ -1,5 +1,5 @@
 -- GENERATED from /repo by harness/vh (translator); do not edit.
-import Iodata.Model.Conv
+import Iodata.Model.WfRead
 namespace Iodata.Gen.Wf
 /-- wfn.py: `get_mocoeff_scales` is called on a basis carrying the source conventions -/
 def wfnScalesFromSource : Bool := false
@@ -13,4 +13,88 @@ def mklBetaIrrepsUseNorbb : Bool := false
 def mklSeparatorsPerCentre : Bool := true
 /-- fchk.py: density matrices converted to the FCHK conventions -/
 def fchkDensitiesConverted : Bool := true
+open Iodata.Wf in
+/-- molden.py: header tags per combination of d/f/g/h kinds -/
+def moldenHeader : Iodata.Wf.HdrTable := [
+  ([none, none, none, none], some []),
+  ([none, none, none, some 'c'], none),
+  ([none, none, none, some 'p'], some [Tag.g9]),
+  ([none, none, some 'c', none], some []),
+  ([none, none, some 'c', some 'c'], none),
+  ([none, none, some 'c', some 'p'], none),
+  ([none, none, some 'p', none], some [Tag.g9]),
+  ([none, none, some 'p', some 'c'], none),
+  ([none, none, some 'p', some 'p'], some [Tag.g9]),
+  ([none, some 'c', none, none], some []),
+  ([none, some 'c', none, some 'c'], none),
+  ([none, some 'c', none, some 'p'], some [Tag.g9]),
+  ([none, some 'c', some 'c', none], some []),
+  ([none, some 'c', some 'c', some 'c'], none),
+  ([none, some 'c', some 'c', some 'p'], none),
+  ([none, some 'c', some 'p', none], some [Tag.g9]),
+  ([none, some 'c', some 'p', some 'c'], none),
+  ([none, some 'c', some 'p', some 'p'], some [Tag.g9]),
+  ([none, some 'p', none, none], some [Tag.f7]),
+  ([none, some 'p', none, some 'c'], none),
+  ([none, some 'p', none, some 'p'], some [Tag.f7, Tag.g9]),
+  ([none, some 'p', some 'c', none], some [Tag.f7]),
+  ([none, some 'p', some 'c', some 'c'], none),
+  ([none, some 'p', some 'c', some 'p'], none),
+  ([none, some 'p', some 'p', none], some [Tag.f7, Tag.g9]),
+  ([none, some 'p', some 'p', some 'c'], none),
+  ([none, some 'p', some 'p', some 'p'], some [Tag.f7, Tag.g9]),
+  ([some 'c', none, none, none], some []),
+  ([some 'c', none, none, some 'c'], none),
+  ([some 'c', none, none, some 'p'], some [Tag.g9]),
+  ([some 'c', none, some 'c', none], some []),
+  ([some 'c', none, some 'c', some 'c'], none),
+  ([some 'c', none, some 'c', some 'p'], none),
+  ([some 'c', none, some 'p', none], some [Tag.g9]),
+  ([some 'c', none, some 'p', some 'c'], none),
+  ([some 'c', none, some 'p', some 'p'], some [Tag.g9]),
+  ([some 'c', some 'c', none, none], some []),
+  ([some 'c', some 'c', none, some 'c'], none),
+  ([some 'c', some 'c', none, some 'p'], some [Tag.g9]),
+  ([some 'c', some 'c', some 'c', none], some []),
+  ([some 'c', some 'c', some 'c', some 'c'], none),
+  ([some 'c', some 'c', some 'c', some 'p'], none),
+  ([some 'c', some 'c', some 'p', none], some [Tag.g9]),
+  ([some 'c', some 'c', some 'p', some 'c'], none),
+  ([some 'c', some 'c', some 'p', some 'p'], some [Tag.g9]),
+  ([some 'c', some 'p', none, none], some [Tag.f7]),
+  ([some 'c', some 'p', none, some 'c'], none),
+  ([some 'c', some 'p', none, some 'p'], some [Tag.f7, Tag.g9]),
+  ([some 'c', some 'p', some 'c', none], some [Tag.f7]),
+  ([some 'c', some 'p', some 'c', some 'c'], none),
+  ([some 'c', some 'p', some 'c', some 'p'], none),
+  ([some 'c', some 'p', some 'p', none], some [Tag.f7, Tag.g9]),
+  ([some 'c', some 'p', some 'p', some 'c'], none),
+  ([some 'c', some 'p', some 'p', some 'p'], some [Tag.f7, Tag.g9]),
+  ([some 'p', none, none, none], some [Tag.d5f10]),
+  ([some 'p', none, none, some 'c'], none),
+  ([some 'p', none, none, some 'p'], some [Tag.d5f10, Tag.g9]),
+  ([some 'p', none, some 'c', none], some [Tag.d5f10]),
+  ([some 'p', none, some 'c', some 'c'], none),
+  ([some 'p', none, some 'c', some 'p'], none),
+  ([some 'p', none, some 'p', none], some [Tag.d5f10, Tag.g9]),
+  ([some 'p', none, some 'p', some 'c'], none),
+  ([some 'p', none, some 'p', some 'p'], some [Tag.d5f10, Tag.g9]),
+  ([some 'p', some 'c', none, none], some [Tag.d5f10]),
+  ([some 'p', some 'c', none, some 'c'], none),
+  ([some 'p', some 'c', none, some 'p'], some [Tag.d5f10, Tag.g9]),
+  ([some 'p', some 'c', some 'c', none], some [Tag.d5f10]),
+  ([some 'p', some 'c', some 'c', some 'c'], none),
+  ([some 'p', some 'c', some 'c', some 'p'], none),
+  ([some 'p', some 'c', some 'p', none], some [Tag.d5f10, Tag.g9]),
+  ([some 'p', some 'c', some 'p', some 'c'], none),
+  ([some 'p', some 'c', some 'p', some 'p'], some [Tag.d5f10, Tag.g9]),
+  ([some 'p', some 'p', none, none], some [Tag.d5]),
+  ([some 'p', some 'p', none, some 'c'], none),
+  ([some 'p', some 'p', none, some 'p'], some [Tag.d5, Tag.g9]),
+  ([some 'p', some 'p', some 'c', none], some [Tag.d5]),
+  ([some 'p', some 'p', some 'c', some 'c'], none),
+  ([some 'p', some 'p', some 'c', some 'p'], none),
+  ([some 'p', some 'p', some 'p', none], some [Tag.d5, Tag.g9]),
+  ([some 'p', some 'p', some 'p', some 'c'], none),
+  ([some 'p', some 'p', some 'p', some 'p'], some [Tag.d5, Tag.g9])]
 end Iodata.Gen.Wf
